@@ -94,3 +94,44 @@ Print Assumptions C05_gauge_counts_live_sessions.
 Example C05_gauge_nonvacuous :
   gauge_inv (World (Agent (Cfg 100 200 true) None (Gen 0 []) 0 no_tables) []).
 Proof. constructor; cbn; [constructor|intros kc []|reflexivity]. Qed.
+
+(* ---- a Session Modification accepted under the guard of C03's history theorem (Proofs/ModImage.v: late_ok) frees
+   exactly the TEIDs of the PDRs it removes: the stored PDR list after the message and the removed PDRs [dp] partition
+   the list before the removals, the generator after is [free_teids] of the generator before over [dp] - so every
+   UP-chosen TEID of a removed PDR is free again, the allocation state of every other id is unchanged, and the gauge
+   stays (the session lives on) *)
+From UPF Require Import Proofs.ModImage Proofs.ModWorld Proofs.ModMarkers.
+From Coq Require Import Permutation.
+Theorem C05_modification_frees_removed_teids : forall burst a c seid cpf cp cf cq up uf uq rp rf rq mid s0 w6 a' c' o,
+  find_session seid (c_sessions c) = Some s0 ->
+  mod_loops a c s0 seid cp cf cq up uf uq = (w6, 0%nat) ->
+  late_ok a c seid s0 w6 cp cf cq up uf uq rp rf rq mid = true ->
+  handle_mod burst a c seid cpf cp cf cq up uf uq rp rf rq = Done (a', c', o) ->
+  exists s' dp,
+    find_session seid (c_sessions c') = Some s' /\
+    Permutation (view (w_p w6)) (view (s_pdrs s') ++ dp) /\
+    (cp = [] -> up = [] -> view (w_p w6) = view (s_pdrs s0)) /\
+    a_teids a' = free_teids (a_teids a) dp /\
+    (forall p, In p dp -> p_choose p = true -> is_allocated (p_teid p) (a_teids a') = false) /\
+    (forall id, (forall p, In p dp -> p_choose p = true -> p_teid p <> id) -> is_allocated id (a_teids a') = is_allocated id (a_teids a)) /\
+    a_gauge a' = a_gauge a.
+Proof. exact mod_removes_free. Qed.
+Print Assumptions C05_modification_frees_removed_teids.
+
+(* non-vacuity: a session with a CHOOSE PDR 1 (TEID 3, allocated) and a second PDR 2 with a control-plane TEID 9;
+   the modification {Remove PDR 1} is inside the guard and accepted; afterwards TEID 3 is free, PDR 2 stays *)
+Example C05_modification_nonvacuous :
+  let burst := fun _ _ _ : N => 0 in
+  let p1 := Pdr 1 5 1 255 100 4294967295 3 4294967295 0 10 1 [] 1 false true 0 0 0 0 (PR 0 0) (PR 0 0) 0 0 in
+  let p2 := Pdr 2 5 1 255 100 4294967295 9 4294967295 0 10 1 [] 1 false false 0 0 0 0 (PR 0 0) (PR 0 0) 0 0 in
+  let f := Far 1 5 1 false 2 0 200 0 0 0 in
+  let s := Sess 5 77 (s_of [p1; p2]) (s_of [f]) (s_of []) in
+  let a := Agent (Cfg 100 200 true) None (Gen 3 [2]) 1 (apply_cmds (add_cmds burst [p1; p2] [f] []) no_tables) in
+  let c := Conn 7 [] [s] 0 in
+  exists w6 a' c' o,
+    find_session 5 (c_sessions c) = Some s /\ mod_loops a c s 5 [] [] [] [] [] [] = (w6, 0%nat) /\
+    late_ok a c 5 s w6 [] [] [] [] [] [] [IOk 1] [] [] true = true /\
+    handle_mod burst a c 5 None [] [] [] [] [] [] [IOk 1] [] [] = Done (a', c', o) /\
+    o_reply o = Some (RMod 77 CAUSE_OK) /\ is_allocated 3 (a_teids a) = true /\ is_allocated 3 (a_teids a') = false /\
+    map (fun x => map p_id (view (s_pdrs x))) (c_sessions c') = [[2]] /\ length (t_pdr (a_tables a')) = 1%nat.
+Proof. intros burst p1 p2 f s a c. do 4 eexists. repeat split; vm_compute; reflexivity. Qed.
